@@ -182,6 +182,9 @@ pub enum Act {
     RequestOwned(u32),
     /// request again the block the client served to us last (whatever the choke state)
     RepeatLast,
+    /// say again what our choke state is (Choke while choking, Unchoke while not): legal and
+    /// without effect on what we do
+    RepeatChokeState,
 }
 
 #[derive(Clone, Debug, Serialize, Deserialize, PartialEq)]
